@@ -3,6 +3,7 @@ import RisorModel.C01.Decode
 import RisorModel.C01.Compile
 import RisorModel.C01.VM
 import RisorModel.C01.PrattOracle
+import RisorModel.C01.FragOracle
 /-! Line-protocol front end of the C01 model.
   `eval <sexp>` → `ok <value> <stdout-hex>` | `err <class> <stdout-hex>` | `oof` | `unsupported <what>` -/
 namespace Risor.C01
@@ -56,6 +57,7 @@ def handle : List String → String
         let sorted := (codes.map one).toArray.qsort (fun a b => a < b) |>.toList
         "ok\t" ++ "|".intercalate sorted
   | "pratt" :: rest => handlePratt rest
+  | "frag" :: rest => handleFrag rest
   | _ => "error\tunknown-request"
 
 end Risor.C01
